@@ -254,6 +254,7 @@ let show_state (st : (Compact.table * coq_N) list) status =
                  show_refs (Compact.stack_refs ts); show_logs (Compact.stack_logs ts) ]
 
 type hop = HAdd of bool * Records.ref_record list * Records.log_record list
+         | HMulti of Records.ref_record list list
          | HCompact of int * int | HCompactAll | HExpire of Compact.expiry
 
 let parse_hop (s : string) : hop =
@@ -263,6 +264,7 @@ let parse_hop (s : string) : hop =
     (match S.split_on_char '~' body with
      | [r; l] -> HAdd (auto = "1", parse_list parse_ref r, parse_list parse_log l)
      | _ -> failwith "bad add")
+  | "M" :: rest -> HMulti (L.map (parse_list parse_ref) (S.split_on_char '%' (S.concat ":" rest)))
   | ["C"; f; l] -> HCompact (int_of_string f, int_of_string l)
   | ["CA"] -> HCompactAll
   | ["CE"; t; mx; mn] -> HExpire { Compact.e_time = n_of_string t; e_max_index = n_of_string mx; e_min_index = n_of_string mn }
@@ -279,6 +281,7 @@ let () = register "history" (fun args ->
   let outs = L.map (fun op ->
       let (st', status) = match op with
         | HAdd (auto, refs, logs) -> StackSeq.stack_add deflate inflate cfg name_check auto refs logs !st
+        | HMulti txs -> StackSeq.stack_addition deflate inflate cfg name_check txs !st
         | HCompact (a, b) -> StackSeq.stack_compact deflate inflate cfg (nat_of_int a) (nat_of_int b) None !st
         | HCompactAll -> StackSeq.stack_compact_all deflate inflate cfg None !st
         | HExpire e -> StackSeq.stack_compact_all deflate inflate cfg (Some e) !st in
@@ -317,6 +320,29 @@ let () = register "history" (fun args ->
                then Printf.sprintf "bad:expiry kept/removed wrong entries at op %d" i
                else if status <> "ok" && show_logs l <> show_logs prev_logs then Printf.sprintf "bad:failed expiry changed logs at op %d" i
                else "ok"
+             | HMulti txs ->
+               (* table by table: each table of the Addition is a transaction on the view left by the earlier ones *)
+               let names0 = L.map (fun x -> x.Records.r_name) prev_refs in
+               let rec seq names = function
+                 | [] -> true
+                 | refs :: rest ->
+                   let tx = L.map (fun x -> (x.Records.r_name, Records.ref_is_del x)) refs in
+                   let names' = Refname.apply_tx names tx in
+                   Refname.conflict_free_b names' && seq names' rest in
+               let legal = seq names0 txs in
+               if status = "rejected" then
+                 (if not name_check then Printf.sprintf "bad:rejected without name check at op %d" i
+                  else if legal then Printf.sprintf "bad:legal Addition refused at op %d" i
+                  else if show_refs r <> show_refs prev_refs || show_logs l <> show_logs prev_logs then Printf.sprintf "bad:rejected Addition had an effect at op %d" i
+                  else "ok")
+               else if status = "ok" then
+                 (if name_check && not legal then Printf.sprintf "bad:conflicting Addition committed at op %d" i else
+                  let er = L.fold_left (fun acc refs -> L.filter (Overlay.live Records.ref_is_del) (Overlay.merge2 Records.ref_key acc refs)) prev_refs txs in
+                  if show_refs r <> show_refs er then Printf.sprintf "bad:refs after Addition differ from applying its tables at op %d" i
+                  else if show_logs l <> show_logs prev_logs then Printf.sprintf "bad:Addition without logs changed logs at op %d" i
+                  else "ok")
+               else
+                 (if show_refs r <> show_refs prev_refs || show_logs l <> show_logs prev_logs then Printf.sprintf "bad:failed Addition had an effect at op %d" i else "ok")
              | HAdd (_, refs, logs) ->
                let tx = L.map (fun x -> (x.Records.r_name, Records.ref_is_del x)) refs in
                let would_conflict = not (Refname.conflict_free_b (Refname.apply_tx (L.map (fun x -> x.Records.r_name) prev_refs) tx)) in
